@@ -16,6 +16,10 @@ CHECKS = {
             "Seeded whole-pipeline simulation on synthetic documents and on windows of the shipped solc outputs; the solver peer succeeds/fails per call with a per-run probability so the stitching code meets every interleaving of replaced and untouched segments; an independent JSON walker compares skeleton entries field by field, metadata, well-formedness of emitted items, and the tool's own parser re-reads each emitted file.",
             "Trusts the independent walker R5 (gsim/ref/asmjson.py, checks/c09.py); PUSH 0 and PUSH0 are treated as the same item; numeric pseudo-push operands are compared as hex numbers.",
             TECH + ": per-sub-block peer success/failure patterns over the real pipeline, independent JSON walker as oracle"),
+    "C10": ("fault_enumeration", "§5 C10",
+            "Fault-free runs of the real pipeline on nasty-constant bait under CPU/address-space budgets (no exception escapes, output exists), and faulted twin runs in which analysis of a chosen block is made impossible (persistent or n-th-call failure of specification generation; EIO/ENOSPC/EACCES/ENOENT placed on the intermediate-file operations of that block); the faulted output must differ from the fault-free twin only at the faulted block, and the run must finish within a bounded number of simulator events.",
+            "Fault kinds are enumerated per base run, fault positions and base runs are sampled; I/O faults on the solver's input file and solver-process failures are explored and counted but are not verdicts (the statement quantifies over analysis failures).",
+            TECH + ": placed analysis-time faults (buggify + SimFS errno injection) against a fault-free twin run, CPU/AS budgets"),
 }
 NA = {
     "C03": "pure function of a term on 256-bit words: no schedule, clock, peer, file, crash or history between term and rewritten term (rule bait still runs through C01/C02 as a side effect)",
